@@ -322,7 +322,32 @@ func famNaN(tw *traceWriter, r *rand.Rand, n int) {
 	}
 }
 
-func init() { families["nan"] = famNaN }
+// the zero instant in a zone other than UTC is a present time (not the Go zero value): optional time nodes test it in Validate
+func famZeroInstant(tw *traceWriter, r *rand.Rand, n int) {
+	i := 0
+	for _, kind := range []string{"gt", "lt", "eq"} {
+		for _, wrap := range []string{"field", "elem", "ptr"} {
+			for _, req := range []bool{false, true} {
+				f := prim("time", req, None, None, []Test{{Kind: kind, N: 2, Code: builtinCode("time", kind)}}, nil)
+				var node *Node = f
+				in := val(nanV)
+				switch wrap {
+				case "elem":
+					node = slice(f, false, None, nil, nil)
+					in = list(in, val(3))
+				case "ptr":
+					node = ptr(f, true)
+				}
+				sch := strct([]Kid{{Key: "a", Node: node}, {Key: "b", Node: prim("int", false, None, None, nil, nil)}}, nil, nil)
+				c := &Case{ID: fmt.Sprintf("zi%d", i), Mode: "validate", Fe: "map", Schema: sch, Input: mapIn(Ent{Key: "a", Val: in}, Ent{Key: "b", Val: val(2)})}
+				tw.emitCase(c, "", true)
+				i++
+			}
+		}
+	}
+}
+
+func init() { families["nan"] = famNaN; families["zeroinstant"] = famZeroInstant }
 
 // C10: positions are rendered in decimal at every magnitude: long slices (20 elements) whose failing elements sit at
 // one- and two-digit positions, at the root, below a field and with struct elements; both modes
